@@ -94,8 +94,9 @@ real runner's iterator of one un-batched operator.
 
 Full-strength statement (every operator, also with batch sizes): **false** on the real code for
 `assign` with `batch_size` — every record after the first failing call is silently lost (finding
-F5, `Witness/C12.lean: C12_F5_witness`); not attempted for `apply` / `select` with batch sizes
-(there the failing call drops its whole batch of rows and the re-batchers stay alive). -/
+F5, `Witness/C12.lean: C12_F5_witness`); for `apply` / `select` with batch sizes (the failing call
+drops its whole group of rows and the re-batchers stay alive) see `C12_skip_batched_partial`,
+`C12_batched_none_lost_after`. -/
 theorem C12_none_lost_after_partial (op : Op) (h : OpOK op) (r : Val) (rest : List (Ev Val))
     (hc : Ref.Clean true rest) (e : Err) (s' : Nat)
     (hfail : Ref.semCall op op.s0 r = (.error e, s')) (hskip : e.ignorable = true) :
@@ -136,8 +137,8 @@ theorem C12_cause (op : Op) (s : Nat) (ins : List Val) (e : Err) (s' : Nat)
     simp only [Prod.mk.injEq, Except.error.injEq] at h
     exact ⟨by rw [← h.1], k, by rw [← h.1], rfl⟩
 
-/-- **C12_first_error_partial.**  (Partial: operators without batch sizes, `OpOK`; what precedes the
-error when a re-batcher holds rows back is not stated.  "Helper threads end" is property C13: the
+/-- **C12_first_error_partial.**  (Partial: operators without batch sizes, `OpOK`; for `apply` /
+`select` with batch sizes — where a re-batcher holds rows back — see `C12_first_error_batched_partial`.  "Helper threads end" is property C13: the
 check observes it, the model has no threads.)  With skipping off, for every chain of un-batched operators and every
 source: the caller observes exactly the reference's outputs up to its first error and then that
 error (`C12_cause`: a failing function surfaces as `ValueError` with the original as cause);
@@ -164,7 +165,10 @@ guarantees for a batched `apply` under skipping: the function is called once per
 `fn_batch_size` rows (per incoming record if `fn_batch_size = 0`); a call that raises drops exactly
 the rows of its group; every other row is delivered exactly once, in order, aligned across the output
 keys, regrouped into records of `batch_size` rows; both `rebatched_args` generators survive because
-only `_maybe_call_fn` is guarded (`map_ignore_error` sits *between* them). -/
+only `_maybe_call_fn` is guarded (`map_ignore_error` sits *between* them).  A record whose inputs
+cannot be read with a skippable error is skipped as a whole (`Ref.skipNT` in `Ref.batchedCols`) —
+the real code does that when `fn_batch_size = 0`; with `fn_batch_size > 0` it loses the rest of
+the stream (finding F-C12-fnbatch-lost), which is why `BatchedOK.clean` is assumed there. -/
 
 /-- **C12_skip_batched_partial.**  `C12_skip_partial` for chains that may contain `apply` / `select`
 / `batch` operators with batch sizes: with skipping on, what the caller of the real runner observes
@@ -297,5 +301,19 @@ example : (Impl.run true [exFail] exSrc).out.length = 2 ∧ (Impl.run true [exFa
   decide +kernel
 
 example : (Ref.semCall exFail 0 (.dict [("a", .int 0)])).2 = 0 := by decide +kernel
+
+/-- without `fn_batch_size` a record whose inputs cannot be read with a skippable error (here: a list
+where a mapping is expected, `TypeError`) is inside the theorem's domain and is skipped as a whole -/
+def exSrcUnreadable : List (Ev Val) :=
+  [.ok (.dict [("v", .list [.int 0])]), .ok (.list []), .ok (.dict [("v", .list [.int 2])])]
+
+example : RunOKG true [{ exFailB with fnBatch := 0 }] exSrcUnreadable :=
+  ⟨by unfold OpOKG
+      simp only [exFailB]
+      exact batchedOKB_sound _ _ _ _ (Or.inr rfl) (fun k k' rest h => by simp at h) (by decide +kernel),
+   trivial⟩
+
+example : (Impl.run true [{ exFailB with fnBatch := 0 }] exSrcUnreadable).out.map colInts = [[0, 2]] ∧
+    (Impl.run true [{ exFailB with fnBatch := 0 }] exSrcUnreadable).err = none := by decide +kernel
 
 end MlModel.C12
